@@ -5,6 +5,7 @@ package yqlib
 import (
 	"fmt"
 	"io"
+	"regexp"
 	"strings"
 )
 
@@ -282,12 +283,15 @@ func (le *luaEncoder) encodeAny(writer io.Writer, node *CandidateNode) error {
 			// lower case
 			return writeString(writer, strings.ToLower(node.Value))
 		case "!!int":
-			if strings.HasPrefix(node.Value, "0o") {
-				_, octalValue, err := parseInt64(node.Value)
+			// Lua reads decimal and 0x numerals (behind an optional minus); every other YAML spelling - octal, a plus
+			// sign, digit separators - is written as the decimal numeral of its value
+			luaNumeral := regexp.MustCompile(`^-?([0-9]+|0[xX][0-9a-fA-F]+)$`)
+			if !luaNumeral.MatchString(node.Value) {
+				_, value, err := parseInt64(node.Value)
 				if err != nil {
 					return err
 				}
-				return writeString(writer, fmt.Sprintf("%d", octalValue))
+				return writeString(writer, fmt.Sprintf("%d", value))
 			}
 			return writeString(writer, strings.ToLower(node.Value))
 		case "!!float":
